@@ -139,7 +139,7 @@ def mimeZip : Bytes := [97, 112, 112, 108, 105, 99, 97, 116, 105, 111, 110, 47, 
     child (or grandchild through its ODF parent) of the `application/zip` node -/
 theorem tree_facts :
     (Gen.builtin.children.filter (fun c => c.info.name == "zip")).map (fun c => c.children.map (·.info.name)) =
-      [["xlsx", "docx", "pptx", "epub", "apk", "jar", "odt", "ods", "odp", "odg", "odf", "odc", "sxc"]] ∧
+      [["xlsx", "docx", "pptx", "epub", "odt", "ods", "odp", "odg", "odf", "odc", "sxc", "apk", "jar"]] ∧
     (Gen.builtin.children.filter (fun c => c.info.name == "zip")).map (·.info.mime) = [mimeZip] ∧
     -- no node outside the zip subtree uses the zip walk
     (Gen.builtin.children.filter (fun c => !(c.info.name == "zip"))).all (fun c =>
